@@ -260,6 +260,44 @@ func c08R2(p *core.Program, r *core.Report) {
 			return true
 		})
 	}
+	// the other ways of writing a map: delete, clear, maps.Copy/Insert/DeleteFunc, replacing the map
+	isSums := func(info *types.Info, e ast.Expr) bool {
+		fld := core.FieldOf(info, e)
+		if fld == nil || !isMapType(fld.Type()) {
+			return false
+		}
+		own := ownerOf(fld)
+		return own != nil && own.Pkg() != nil && core.RelPkg(own.Pkg().Path()) == "pkg/sumfile"
+	}
+	for _, ff := range p.Funcs() {
+		if core.RelPkg(ff.Pkg.PkgPath) == "pkg/sumfile" {
+			continue // the file type's own reader and writer (R4, R5)
+		}
+		finfo := ff.Info()
+		ast.Inspect(ff.Body, func(n ast.Node) bool {
+			if lit, isLit := n.(*ast.FuncLit); isLit && lit != ff.Lit {
+				return false
+			}
+			switch x := n.(type) {
+			case *ast.CallExpr:
+				switch core.CalleeName(finfo, x) {
+				case "builtin.delete", "builtin.clear", "maps.Copy", "maps.Insert", "maps.DeleteFunc":
+					if len(x.Args) >= 1 && isSums(finfo, x.Args[0]) {
+						nstores++
+						r.Bad(rule, ff, "the recorded sums are changed by "+core.ExprStr(x), x.Pos(), "an entry of the sum table is removed or replaced outside the loader: after a successful run gengo.sum no longer holds one line per local package with its load-time hash (the package is regenerated on every run, or a stale hash is trusted)")
+					}
+				}
+			case *ast.AssignStmt:
+				for _, l := range x.Lhs {
+					if _, isIx := ast.Unparen(l).(*ast.IndexExpr); !isIx && isSums(finfo, l) {
+						nstores++
+						r.Bad(rule, ff, "the table of recorded sums is replaced: "+core.ExprStr(x), x.Pos(), "the sum table is replaced outside the sum file's own reader")
+					}
+				}
+			}
+			return true
+		})
+	}
 	r.Check(stored && nstores == 1, rule, f, "the hash is recorded under the same package's path, and nothing else writes the sums", cs.Call.Pos(), "u.sumFile.Data[p.PkgPath] = HashDir(p.Dir)", "the directory hash is stored under another key than the hashed package's path, or the sums have a second writer")
 	// computed at load: root is Load, whose only caller is NewContext
 	root := f.Root()
